@@ -225,7 +225,9 @@ def corrupt_clause(ctx, quick):
     model(ctx, 'OciClientFaultsMC_corrupt.cfg',
           'GetBlob/GetManifest/GetTag/GetBlobRange then read to the end, against every combination of Content-Length {absent,0,1,2,3,big} x digest header '
           '{absent,empty,malformed,right,right in sha512,of the wrong bytes,of other bytes,of the big content} x body {exact,wrong bytes,short,long,empty; big: '
-          'exact,wrong,short,long} x stream end {EOF,reset}, the HEAD fallback of a digest-less big manifest included: CorruptNeverCleanEOF, NoPanicState, RankDecreases')
+          'exact,wrong,short,long} x stream end {EOF,reset}, the HEAD fallback of a digest-less big manifest included; and responses framed by HTTP/1.1 (complete and 206 range '
+          'responses with Content-Length / Content-Range) whose connection closes after 0, 1, half, all but one, all of the announced bytes: CorruptNeverCleanEOF, '
+          'ShortNeverCleanEOF (no read, range reads included, ends cleanly short of the announced length), NoPanicState, RankDecreases')
     scen = export(ctx, 'OciClientFaultsMC_export_corrupt_quick.cfg' if quick else 'OciClientFaultsMC_export_corrupt.cfg',
                   'response scripts of the read operations')
     vh = vlib.build_harness(ctx)
@@ -241,8 +243,12 @@ def corrupt_clause(ctx, quick):
         count(ctx, t)
     ctx.cov.setdefault('samples', []).append(dict(corrupted_read=samples(t0, want=('GetTag',))[:1]))
     vlib.judge_traces(ctx, MODULE, CFG, traces, strict=STRICT, shard_lines=2500 if quick else 6000, label='client reads vs OciClientFaults (corrupted content)')
-    ctx.assumptions += ['corrupted-read clause: a range read is excluded (its reader reports the whole blob\'s descriptor and cannot verify a slice against it; '
-                        'it only fails when more than the whole size arrives)',
+    ctx.assumptions += ['corrupted-read clause for range reads: only "too short" is required (a body that stops before the length the response announced must end in '
+                        'an error); wrong bytes cannot be detected for a slice; more bytes than the whole blob may or must fail (constant StrictRangeTooLong = FALSE: '
+                        'ociclient misses it when the last bytes arrive together with io.EOF, as net/http delivers them for a Content-Length-framed body)',
+                        'a response of stream-end class "trunc" is rendered as an HTTP/1.1 wire image (announced Content-Length, fewer or as many body bytes, then '
+                        'the connection closes) and parsed by net/http\'s own http.ReadResponse, so the client sees exactly what a real transport reports '
+                        '(io.ErrUnexpectedEOF for a short body); the other classes are handed over as *http.Response values directly',
                         'independent sha256/sha384/sha512 in the harness map the bytes delivered and the digests reported to catalogue contents']
     return traces
 
